@@ -21,6 +21,16 @@ func init() {
 		// in the shared informer's store (model: `snapshotHeap id`).
 		skelTarget{Name: "C08.getCachedObjects", File: "pkg/kube_events_manager/resource_informer.go", Recv: "resourceInformer", Func: "getCachedObjects",
 			Fields: []string{"cachedObjects", "Object", "FilterResult", "Metadata"}},
+		// OnAdd: the `isInInitialList` argument of client-go plays no part — an Added of the list the
+		// informer made on start is handled like any other (model: `onAdd`, which ignores the flag).
+		skelTarget{Name: "C08.OnAdd", File: "pkg/kube_events_manager/resource_informer.go", Recv: "resourceInformer", Func: "OnAdd",
+			Calls: []string{"handleWatchEvent"}},
+		// loadExistedObjects: the listed objects are filed under the ResourceId applyFilter gave them
+		// (= resourceId(obj), see C08.applyFilter) — the key handleWatchEvent looks the object up by;
+		// no key is built here (model: `loadKey`).
+		skelTarget{Name: "C08.loadExistedObjects", File: "pkg/kube_events_manager/resource_informer.go", Recv: "resourceInformer", Func: "loadExistedObjects",
+			Fields: []string{"cachedObjects", "ResourceId"},
+			Calls:  []string{"applyFilter", "RemoveFullObject", "resourceId", "Sprintf", "Sprint", "GetKind", "GetName", "GetNamespace", "List"}},
 	)
 }
 
